@@ -116,7 +116,7 @@ struct World : KernelHooks, ModelHost {
 	struct Entitled { int c; JV fetchid; std::string event, path; bool check_value; uint64_t vhash; };
 	uint64_t model_version = 0, snap_version = ~0ULL;   // snapshots are only taken when something happened since the last one (a connection read byte by byte makes hundreds of reads per message)
 	struct Cand { Model m; bool alive = true; int parent = 0; std::vector<Entitled> entitled; bool entitled_overflow = false; std::map<std::string, int> auth; /* outcome of authenticate requests in this alternative: 1 accepted, 0 refused */ };
-	size_t passwd_in_ledger_mode = 0; int cur_read_client = -1;
+	size_t passwd_in_ledger_mode = 0; int cur_read_client = -1; int lasting_accept_failures_turn = 0;
 	void write_failed_for(Client &cl, const std::string &frame);
 	std::map<std::string, uint64_t> shadow_auth_seen;   // authenticate requests consumed after a failed allocation -> number of failures so far
 	void shadow_check_auth(Client &cl, const Frame &f);
